@@ -20,6 +20,19 @@ package msgpipeline
 // for chosen recipients, RewriteBody; temporary or permanent error): a command can fail in the
 // middle of the checks' bookkeeping - one recipient of a block accepted, a later one of the SAME
 // block failing in the block's RewriteRcpt, recipients of other blocks following, then DATA.
+// The envelope sender of a case may be the null reverse-path (`MAIL FROM:<>`, bounces), an IDN
+// address, a quoted local part or an upper-case spelling (op token `f=`).
+// "multi" ops: ONE pipeline object built by the REAL configuration parser from generated
+// configuration text (cfgparser.Read + New / parseMsgPipelineRootCfg: every check of a scope in its
+// own `check { }` directive, 0-5 per scope, so the check lists have the lengths and capacities
+// repeated append gives them; 1-3 source blocks - `source s<k>.example bücher<k>.example` and
+// default_source - with 1-3 destination blocks each) and 1-3 (thorough: 4) transactions on it, each
+// with its own sender (selecting a source block), recipients, verdicts and mode, whose commands
+// (MAIL, every RCPT, DATA) are interleaved as the op's schedule says; the scripted checks find the
+// message a state object belongs to by MsgMetadata.ID.  Every monitor rule is applied to every
+// transaction on its own; in addition a state object must only be asked while a command of ITS message
+// runs and must be shown the sender / recipients / body of ITS message, and the same transactions
+// run one after the other and in another interleaving must show the same.
 //
 //   T2: the op line goes to the Lean model (Model/CheckRunner.lean); command outcomes, per-recipient
 //       results, quarantine flag, hand-offs seen by the targets and the per-state call logs are compared.
@@ -33,6 +46,7 @@ import (
 	"context"
 	"errors"
 	"fmt"
+	"io"
 	"os"
 	"sort"
 	"strconv"
@@ -46,6 +60,7 @@ import (
 	"github.com/emersion/go-smtp"
 	"github.com/foxcpp/go-mockdns"
 	"github.com/foxcpp/maddy/framework/buffer"
+	parser "github.com/foxcpp/maddy/framework/cfgparser"
 	"github.com/foxcpp/maddy/framework/config"
 	modconfig "github.com/foxcpp/maddy/framework/config/module"
 	"github.com/foxcpp/maddy/framework/exterrors"
@@ -53,6 +68,7 @@ import (
 	"github.com/foxcpp/maddy/framework/module"
 	"github.com/foxcpp/maddy/internal/modify"
 	"github.com/foxcpp/maddy/internal/verifshim/vh"
+	"golang.org/x/net/idna"
 )
 
 // ---------------------------------------------------------------- script
@@ -283,6 +299,40 @@ type c06Case struct {
 	q0      bool     // MsgMetadata.Quarantine is already set when Start is called
 	mf      *c06MF   // failures of the scripted modifiers (nil: none)
 	inner   *c06Case // the pipeline behind the target of kind "px"; inner.rcpts is its routing table (id:block)
+	form    byte     // how the envelope sender is written: 0/'n' plain, 'z' null reverse-path, 'i' IDN domain, 'q' quoted local part, 'u' upper case
+	src     int      // multi ops: the source block the sender selects (the last one is default_source)
+}
+
+func (c *c06Case) formOr() byte {
+	if c.form == 0 {
+		return 'n'
+	}
+	return c.form
+}
+
+const c06Forms = "nziqu"
+
+// c06Sender: the reverse-path of a transaction. dom: the domain a `source` rule of the pipeline
+// matches ("" - none does: the default source); idn: the same for the IDN rule of that block.
+func c06Sender(form byte, dom, idn string) string {
+	if dom == "" {
+		dom, idn = "example.org", "m\u00fcller.example"
+	}
+	switch form {
+	case 'z':
+		return ""
+	case 'i':
+		a, err := idna.ToASCII(idn)
+		if err != nil {
+			panic(err)
+		}
+		return "sender@" + a
+	case 'q':
+		return `"sender@x y"@` + dom
+	case 'u':
+		return "Sender@" + strings.ToUpper(dom)
+	}
+	return "sender@" + dom
 }
 
 func c06Ids(l []int) string {
@@ -319,6 +369,9 @@ func (c *c06Case) op() string {
 		}
 		if !c.mf.empty() {
 			f = append(f, c.mf.String())
+		}
+		if c.formOr() != 'n' {
+			f = append(f, "f="+string(c.form))
 		}
 		return "C06 run " + strings.Join(f, " ")
 	}
@@ -376,8 +429,8 @@ func c06Parse(op string) (c *c06Case, err error) {
 	switch {
 	case t[1] == "run" && len(t) == 11:
 		return c06ParseFields(t[2:])
-	case t[1] == "run" && (len(t) == 12 || len(t) == 13):
-		// [Q] [m=...]
+	case t[1] == "run" && len(t) >= 12 && len(t) <= 14:
+		// [Q] [m=...] [f=<sender form>]
 		rest := t[11:]
 		c, err = c06ParseFields(t[2:11])
 		if err != nil {
@@ -387,8 +440,12 @@ func c06Parse(op string) (c *c06Case, err error) {
 			c.q0 = true
 			rest = rest[1:]
 		}
-		if len(rest) == 1 && strings.HasPrefix(rest[0], "m=") {
+		if len(rest) >= 1 && strings.HasPrefix(rest[0], "m=") {
 			c.mf, err = c06ParseMF(rest[0])
+			rest = rest[1:]
+		}
+		if len(rest) == 1 && len(rest[0]) == 3 && strings.HasPrefix(rest[0], "f=") && strings.IndexByte(c06Forms, rest[0][2]) >= 0 {
+			c.form = rest[0][2]
 			rest = rest[1:]
 		}
 		if len(rest) != 0 || err != nil {
@@ -511,15 +568,59 @@ type c06Rec struct {
 	instCmd  map[[2]int]int
 	seq      int
 	inverted int
-	lateCall int // calls on a state object after its Close
+	lateCall int      // calls on a state object after its Close
+	foreign  []string // calls on a state object of this message while a command of ANOTHER message was running
+	wrongArg []string // a state object of this message was shown the sender / a recipient / the body of another message
 }
 
-type c06Check struct {
-	id     int
-	sc     *c06Script
-	delays [4]int
-	rec    *c06Rec
+func c06NewRec() *c06Rec { return &c06Rec{inst: map[int]int{}, instCmd: map[[2]int]int{}} }
+
+// c06TxCtx: what the scripted checks know about one message (found by MsgMetadata.ID when the
+// state object is created): its script (a verdict per check, stage and recipient), the delays, the
+// call log, and what the message looks like.
+type c06TxCtx struct {
+	id      string
+	scripts []c06Script
+	delays  [][4]int
+	rec     *c06Rec
+	sender  string
+	addrs   map[string]bool
+	body    string
+	anyArg  bool // do not look at the arguments (decoy)
 }
+
+// c06Shared: the messages in flight on the pipeline the check belongs to.
+type c06Shared struct {
+	mu    sync.Mutex
+	txs   map[string]*c06TxCtx
+	any   *c06TxCtx // used for every message (decoy check)
+	cur   *c06TxCtx // the message whose command is being executed
+	stray *c06TxCtx // state objects asked for on behalf of a message nobody announced
+}
+
+func (sh *c06Shared) lookup(id string) *c06TxCtx {
+	sh.mu.Lock()
+	defer sh.mu.Unlock()
+	if sh.any != nil {
+		return sh.any
+	}
+	if t, ok := sh.txs[id]; ok {
+		return t
+	}
+	if sh.stray == nil {
+		sh.stray = &c06TxCtx{id: "stray", rec: c06NewRec(), anyArg: true}
+	}
+	return sh.stray
+}
+
+func (sh *c06Shared) setCur(t *c06TxCtx) { sh.mu.Lock(); sh.cur = t; sh.mu.Unlock() }
+
+type c06Check struct {
+	id int
+	sh *c06Shared
+}
+
+func c06Body(id string) string { return "hello " + id + "\r\n" }
 
 func (c *c06Check) Init(*config.Map) error { return nil }
 func (c *c06Check) Name() string           { return "verif_check" }
@@ -527,17 +628,27 @@ func (c *c06Check) InstanceName() string   { return "verif_check" + strconv.Itoa
 
 type c06State struct {
 	c      *c06Check
+	tx     *c06TxCtx
 	inst   int
 	closed bool
 }
 
 func (c *c06Check) CheckStateForMsg(ctx context.Context, msgMeta *module.MsgMetadata) (module.CheckState, error) {
-	c.rec.mu.Lock()
-	defer c.rec.mu.Unlock()
-	inst := c.rec.inst[c.id]
-	c.rec.inst[c.id] = inst + 1
-	c.rec.instCmd[[2]int{c.id, inst}] = c.rec.cmd
-	return &c06State{c: c, inst: inst}, nil
+	tx := c.sh.lookup(msgMeta.ID)
+	rec := tx.rec
+	rec.mu.Lock()
+	defer rec.mu.Unlock()
+	inst := rec.inst[c.id]
+	rec.inst[c.id] = inst + 1
+	rec.instCmd[[2]int{c.id, inst}] = rec.cmd
+	return &c06State{c: c, tx: tx, inst: inst}, nil
+}
+
+func (tx *c06TxCtx) script(check int) *c06Script {
+	if check < len(tx.scripts) {
+		return &tx.scripts[check]
+	}
+	return &c06Script{conn: c06V{'0', 'i'}, sender: c06V{'0', 'i'}, body: c06V{'0', 'i'}, rcpt: map[int]c06V{}}
 }
 
 const c06DelayUnit = 40 * time.Microsecond
@@ -559,8 +670,12 @@ func c06EffOf(r module.CheckResult) string {
 	return "n"
 }
 
-func (s *c06State) do(stage string, di int) module.CheckResult {
-	rec := s.c.rec
+// do: one Check* call. arg: what the state object was shown (sender, recipient address, body).
+func (s *c06State) do(stage string, di int, arg string) module.CheckResult {
+	rec := s.tx.rec
+	s.c.sh.mu.Lock()
+	cur := s.c.sh.cur
+	s.c.sh.mu.Unlock()
 	rec.mu.Lock()
 	call := &c06Call{check: s.c.id, inst: s.inst, stage: stage, cmd: rec.cmd}
 	rec.calls = append(rec.calls, call)
@@ -568,11 +683,32 @@ func (s *c06State) do(stage string, di int) module.CheckResult {
 	if s.closed {
 		rec.lateCall++
 	}
+	if cur != nil && cur != s.tx && s.c.sh.any == nil {
+		rec.foreign = append(rec.foreign, fmt.Sprintf("check %d stage %s of message %s during a command of message %s", s.c.id, stage, s.tx.id, cur.id))
+	}
+	if !s.tx.anyArg {
+		bad := false
+		switch stage[0] {
+		case 's':
+			bad = arg != s.tx.sender
+		case 'r':
+			bad = !s.tx.addrs[arg]
+		case 'b':
+			bad = arg != s.tx.body
+		}
+		if bad {
+			rec.wrongArg = append(rec.wrongArg, fmt.Sprintf("check %d, state object of message %s, stage %s: shown %q", s.c.id, s.tx.id, stage, arg))
+		}
+	}
 	rec.mu.Unlock()
-	if d := s.c.delays[di]; d > 0 {
+	var dl [4]int
+	if s.c.id < len(s.tx.delays) {
+		dl = s.tx.delays[s.c.id]
+	}
+	if d := dl[di]; d > 0 {
 		time.Sleep(time.Duration(d) * c06DelayUnit)
 	}
-	res := s.c.sc.at(stage).result(s.c.id)
+	res := s.tx.script(s.c.id).at(stage).result(s.c.id)
 	rec.mu.Lock()
 	call.eff = c06EffOf(res)
 	rec.seq++
@@ -588,22 +724,29 @@ func (s *c06State) do(stage string, di int) module.CheckResult {
 	return res
 }
 
-func (s *c06State) CheckConnection(ctx context.Context) module.CheckResult { return s.do("c", 0) }
+func (s *c06State) CheckConnection(ctx context.Context) module.CheckResult { return s.do("c", 0, "") }
 func (s *c06State) CheckSender(ctx context.Context, from string) module.CheckResult {
-	return s.do("s", 1)
+	return s.do("s", 1, from)
 }
 func (s *c06State) CheckRcpt(ctx context.Context, to string) module.CheckResult {
 	// u<id>@b<blk>.example
 	id := strings.TrimPrefix(strings.SplitN(to, "@", 2)[0], "u")
-	return s.do("r"+id, 2)
+	return s.do("r"+id, 2, to)
 }
 func (s *c06State) CheckBody(ctx context.Context, h textproto.Header, b buffer.Buffer) module.CheckResult {
-	return s.do("b", 3)
+	shown := "?"
+	if rd, err := b.Open(); err == nil {
+		if data, err := io.ReadAll(rd); err == nil {
+			shown = string(data)
+		}
+		rd.Close()
+	}
+	return s.do("b", 3, shown)
 }
 func (s *c06State) Close() error {
-	s.c.rec.mu.Lock()
+	s.tx.rec.mu.Lock()
 	s.closed = true
-	s.c.rec.mu.Unlock()
+	s.tx.rec.mu.Unlock()
 	return nil
 }
 
@@ -866,6 +1009,19 @@ type c06Info struct {
 	inner     *c06Info // the pipeline behind it (nil: it was never started)
 	otherQ    bool     // another pipeline the message went through returned a quarantine / had the DMARC policy quarantine
 	strayCall bool     // the inner pipeline's checks were called although nothing was handed to it
+	txID      string   // MsgMetadata.ID of this transaction: the targets' deliveries of other messages are not its business
+	open      bool     // multi ops: the schedule ended before all commands of this transaction were issued
+}
+
+// dl: the deliveries of target t that belong to this transaction.
+func (in *c06Info) dl(t *c06Target) []*c06Dlv {
+	var out []*c06Dlv
+	for _, d := range t.dlvs {
+		if in.txID == "" || d.meta == nil || d.meta.ID == in.txID {
+			out = append(out, d)
+		}
+	}
+	return out
 }
 
 func c06Why(err error) string {
@@ -891,25 +1047,29 @@ func c06Why(err error) string {
 // c06Pipe is one real MsgPipeline built from a case.
 type c06Pipe struct {
 	p        *MsgPipeline
-	rec      *c06Rec
+	sh       *c06Shared
+	ctx      *c06TxCtx // the one message of a run / nest op
+	rec      *c06Rec   // = ctx.rec
 	decoyRec *c06Rec
 	modRec   *c06ModRec
 	tgts     []*c06Target
+	checks   []module.Check
 }
 
 func (r *c06Rec) setCmd(k int) { r.mu.Lock(); r.cmd = k; r.mu.Unlock() }
 
 // c06Build assembles the pipeline of a case. routes: lookup key (domain or full address) -> block;
 // nested: what a target of kind px stands for.
-func c06Build(c *c06Case, routes map[string]int, nested module.DeliveryTarget) *c06Pipe {
-	rec := &c06Rec{inst: map[int]int{}, instCmd: map[[2]int]int{}}
-	pp := &c06Pipe{rec: rec, modRec: &c06ModRec{}}
+func c06Build(c *c06Case, routes map[string]int, nested module.DeliveryTarget, ctx *c06TxCtx) *c06Pipe {
+	rec := ctx.rec
+	sh := &c06Shared{txs: map[string]*c06TxCtx{ctx.id: ctx}, cur: ctx}
+	pp := &c06Pipe{rec: rec, ctx: ctx, sh: sh, modRec: &c06ModRec{}}
 	mods := func(scope string, blk int) modify.Group {
 		return modify.Group{Modifiers: []module.Modifier{&c06Mod{scope: scope, blk: blk, mf: c.mf, rec: pp.modRec}}}
 	}
 	checks := make([]module.Check, len(c.scripts))
 	for i := range c.scripts {
-		checks[i] = &c06Check{id: i, sc: &c.scripts[i], delays: c.delays[i], rec: rec}
+		checks[i] = &c06Check{id: i, sh: sh}
 	}
 	pick := func(ids []int) []module.Check {
 		var out []module.Check
@@ -940,9 +1100,10 @@ func c06Build(c *c06Case, routes map[string]int, nested module.DeliveryTarget) *
 	}
 	refuse := &exterrors.SMTPError{Code: 550, EnhancedCode: exterrors.EnhancedCode{5, 1, 1}, Message: "no such block"}
 	// a source block for another sender: its check is not applicable to this message
-	pp.decoyRec = &c06Rec{inst: map[int]int{}, instCmd: map[[2]int]int{}}
-	decoySc := c06Script{conn: c06V{'1', 'r'}, sender: c06V{'1', 'r'}, body: c06V{'1', 'r'}, rcpt: map[int]c06V{}}
-	decoy := &c06Check{id: 99, sc: &decoySc, rec: pp.decoyRec}
+	pp.decoyRec = c06NewRec()
+	decoySc := make([]c06Script, 100)
+	decoySc[99] = c06Script{conn: c06V{'1', 'r'}, sender: c06V{'1', 'r'}, body: c06V{'1', 'r'}, rcpt: map[int]c06V{}}
+	decoy := &c06Check{id: 99, sh: &c06Shared{any: &c06TxCtx{id: "decoy", scripts: decoySc, rec: pp.decoyRec, anyArg: true}}}
 	zones := map[string]mockdns.Zone{}
 	switch c.dmarc {
 	case "pass":
@@ -978,11 +1139,199 @@ func c06Build(c *c06Case, routes map[string]int, nested module.DeliveryTarget) *
 	return pp
 }
 
+// c06Tx: one transaction on a real pipeline, driven command by command the way the SMTP endpoint
+// (Start, AddRcpt…, Body, Commit|Abort) or the LMTP endpoint (…, BodyNonAtomic, Commit) does.
+type c06Tx struct {
+	c        *c06Case
+	pp       *c06Pipe
+	ctx      *c06TxCtx
+	info     *c06Info
+	meta     *module.MsgMetadata
+	dlv      module.Delivery
+	phase    int // 0 before MAIL, 1 between MAIL and DATA, 2 finished
+	next     int // the next RCPT command
+	anyAcc   bool
+	before   func(k int)     // called before command k (0 MAIL, k RCPT k, n+1 DATA)
+	accepted func(r c06Rcpt) // an RCPT command was accepted
+}
+
+// c06NewCtx: what the checks are told about the one message of a case. addrs: the addresses the
+// recipients are written with.
+func c06NewCtx(id string, c *c06Case, sender string, addrs []string) *c06TxCtx {
+	ctx := &c06TxCtx{id: id, scripts: c.scripts, delays: c.delays, rec: c06NewRec(), sender: sender, addrs: map[string]bool{}, body: c06Body(id)}
+	for _, a := range addrs {
+		ctx.addrs[a] = true
+	}
+	return ctx
+}
+
+func c06NewTx(c *c06Case, pp *c06Pipe, ctx *c06TxCtx) *c06Tx {
+	tx := &c06Tx{c: c, pp: pp, ctx: ctx}
+	tx.info = &c06Info{c: c, rec: ctx.rec, tgts: pp.tgts, status: map[int]bool{}, nested: c.inner != nil, modRec: pp.modRec, txID: ctx.id}
+	tx.meta = &module.MsgMetadata{ID: ctx.id, DontTraceSender: true, OriginalFrom: ctx.sender, Quarantine: c.q0}
+	return tx
+}
+
+func (tx *c06Tx) setCmd(k int) {
+	tx.pp.sh.setCur(tx.ctx)
+	tx.ctx.rec.setCmd(k)
+	if tx.before != nil {
+		tx.before(k)
+	}
+}
+
+// step issues the next command of the transaction; false: there is none left.
+func (tx *c06Tx) step() bool {
+	c, info := tx.c, tx.info
+	ctx := context.Background()
+	switch {
+	case tx.phase == 0:
+		tx.setCmd(0)
+		delivery, err := tx.pp.p.Start(ctx, tx.meta, tx.ctx.sender)
+		if err != nil {
+			info.startRef = true
+			info.startWhy = c06Why(err)
+			tx.finish()
+			return true
+		}
+		tx.dlv = delivery
+		tx.phase = 1
+	case tx.phase == 1 && tx.next < len(c.rcpts):
+		k := tx.next
+		r := c.rcpts[k]
+		tx.next++
+		tx.setCmd(k + 1)
+		err := tx.dlv.AddRcpt(ctx, c06Addr(r.id, r.blk), smtp.RcptOptions{})
+		info.rcptRef = append(info.rcptRef, err != nil)
+		if err != nil {
+			info.rcptWhy = append(info.rcptWhy, c06Why(err))
+		} else {
+			info.rcptWhy = append(info.rcptWhy, "")
+			tx.anyAcc = true
+			if tx.accepted != nil {
+				tx.accepted(r)
+			}
+		}
+	case tx.phase == 1:
+		tx.setCmd(len(c.rcpts) + 1)
+		tx.data()
+		tx.finish()
+	default:
+		return false
+	}
+	return true
+}
+
+func (tx *c06Tx) data() {
+	c, info, delivery := tx.c, tx.info, tx.dlv
+	ctx := context.Background()
+	hdr := textproto.Header{}
+	hdr.Add("Subject", "verif")
+	hdr.Add("From", "<someone@example.org>")
+	body := buffer.MemoryBuffer{Slice: []byte(tx.ctx.body)}
+	switch {
+	case !tx.anyAcc:
+		info.bodyKind = "none"
+		delivery.Abort(ctx)
+	case c.mode == "smtp":
+		if err := delivery.Body(ctx, hdr, body); err != nil {
+			info.bodyKind = c06Why(err)
+			delivery.Abort(ctx)
+		} else {
+			info.bodyKind = "ok"
+			delivery.Commit(ctx)
+		}
+	default:
+		col := &c06Collector{st: map[int][]error{}}
+		delivery.(module.PartialDelivery).BodyNonAtomic(ctx, col, hdr, body)
+		delivery.Commit(ctx) // the LMTP endpoint always commits
+		// classify: a refusal before the targets reports the same error for every recipient
+		kinds := map[string]int{}
+		n := 0
+		for _, errs := range col.st {
+			for _, e := range errs {
+				n++
+				if e == nil {
+					kinds["ok"]++
+				} else {
+					kinds[c06Why(e)]++
+				}
+			}
+		}
+		switch {
+		case kinds["chk"] > 0 && kinds["chk"] == n:
+			info.bodyKind = "chk"
+		case kinds["dmarc"] > 0 && kinds["dmarc"] == n:
+			info.bodyKind = "dmarc"
+		case kinds["mod"] > 0 && kinds["mod"] == n:
+			info.bodyKind = "mod"
+		case kinds["chk"] > 0 || kinds["dmarc"] > 0 || kinds["mod"] > 0:
+			info.bodyKind = "other:mixed-statuses"
+		default:
+			info.bodyKind = "ok"
+			for k := range kinds {
+				if strings.HasPrefix(k, "other") {
+					info.bodyKind = k
+				}
+			}
+		}
+		for k, r := range c.rcpts {
+			if info.rcptRef[k] {
+				continue
+			}
+			// a recipient without a status is served: the LMTP server fills in success for
+			// every recipient the handler did not report on
+			served := true
+			for _, e := range col.st[r.id] {
+				if e != nil {
+					served = false
+				}
+			}
+			info.status[r.id] = served
+		}
+	}
+	if c.mode == "smtp" && tx.anyAcc {
+		for k, r := range c.rcpts {
+			if !info.rcptRef[k] {
+				info.status[r.id] = info.bodyKind == "ok"
+			}
+		}
+	}
+}
+
+// finish: the transaction is over (MAIL refused, or DATA / the abort without DATA done).
+func (tx *c06Tx) finish() {
+	tx.phase = 2
+	info := tx.info
+	info.finalQ = tx.meta.Quarantine
+	if tx.pp.decoyRec != nil {
+		info.decoyHits = len(tx.pp.decoyRec.calls)
+	}
+	info.obs = c06Obs(info)
+	info.outcome = c06CheckOutcome(info)
+}
+
+// giveUp: the schedule of a multi op ended before DATA; the endpoint would abort.
+func (tx *c06Tx) giveUp() {
+	if tx.phase == 1 {
+		tx.pp.sh.setCur(tx.ctx)
+		tx.dlv.Abort(context.Background())
+	}
+	tx.phase = 2
+	tx.info.open = true
+	tx.info.obs = "open"
+}
+
 func c06Run(c *c06Case) *c06Info {
 	routes := map[string]int{}
 	for i := range c.blocks {
 		routes[fmt.Sprintf("b%d.example", i)] = i
 	}
+	var addrs []string
+	for _, r := range c.rcpts {
+		addrs = append(addrs, c06Addr(r.id, r.blk))
+	}
+	sender := c06Sender(c.formOr(), "", "")
 	var ip *c06Pipe
 	var nested module.DeliveryTarget
 	hasNest := func(blk int) bool { return false }
@@ -996,7 +1345,7 @@ func c06Run(c *c06Case) *c06Info {
 		for _, r := range c.rcpts {
 			ir[c06Addr(r.id, r.blk)] = iroute[r.id]
 		}
-		ip = c06Build(c.inner, ir, nil)
+		ip = c06Build(c.inner, ir, nil, c06NewCtx("verif", c.inner, sender, addrs))
 		nested = ip.p
 		hasNest = func(blk int) bool {
 			for _, t := range c.blocks[blk].targets {
@@ -1007,119 +1356,24 @@ func c06Run(c *c06Case) *c06Info {
 			return false
 		}
 	}
-	op := c06Build(c, routes, nested)
-	rec := op.rec
-	info := &c06Info{c: c, rec: rec, tgts: op.tgts, status: map[int]bool{}, nested: c.inner != nil, modRec: op.modRec}
-	p := op.p
-	ctx := context.Background()
-	meta := &module.MsgMetadata{ID: "verif", DontTraceSender: true, OriginalFrom: "sender@example.org", Quarantine: c.q0}
+	ctx := c06NewCtx("verif", c, sender, addrs)
+	op := c06Build(c, routes, nested, ctx)
+	tx := c06NewTx(c, op, ctx)
 	var handed []c06Rcpt // what the nested pipeline was given, in order
-	setCmd := func(k int) {
-		rec.setCmd(k)
+	tx.before = func(int) {
 		if ip != nil {
 			// commands as the inner pipeline sees them: its k-th AddRcpt (its Start runs inside the first), then the body
 			ip.rec.setCmd(len(handed) + 1)
 		}
 	}
-	setCmd(0)
-	delivery, err := p.Start(ctx, meta, "sender@example.org")
-	if err != nil {
-		info.startRef = true
-		info.startWhy = c06Why(err)
-	} else {
-		anyAcc := false
-		for k, r := range c.rcpts {
-			setCmd(k + 1)
-			err := delivery.AddRcpt(ctx, c06Addr(r.id, r.blk), smtp.RcptOptions{})
-			info.rcptRef = append(info.rcptRef, err != nil)
-			if err != nil {
-				info.rcptWhy = append(info.rcptWhy, c06Why(err))
-			} else {
-				info.rcptWhy = append(info.rcptWhy, "")
-				anyAcc = true
-				if hasNest(r.blk) {
-					handed = append(handed, c06Rcpt{r.id, 0})
-				}
-			}
-		}
-		setCmd(len(c.rcpts) + 1)
-		hdr := textproto.Header{}
-		hdr.Add("Subject", "verif")
-		hdr.Add("From", "<someone@example.org>")
-		body := buffer.MemoryBuffer{Slice: []byte("hello\r\n")}
-		switch {
-		case !anyAcc:
-			info.bodyKind = "none"
-			delivery.Abort(ctx)
-		case c.mode == "smtp":
-			if err := delivery.Body(ctx, hdr, body); err != nil {
-				info.bodyKind = c06Why(err)
-				delivery.Abort(ctx)
-			} else {
-				info.bodyKind = "ok"
-				delivery.Commit(ctx)
-			}
-		default:
-			col := &c06Collector{st: map[int][]error{}}
-			delivery.(module.PartialDelivery).BodyNonAtomic(ctx, col, hdr, body)
-			delivery.Commit(ctx) // the LMTP endpoint always commits
-			// classify: a refusal before the targets reports the same error for every recipient
-			kinds := map[string]int{}
-			n := 0
-			for _, errs := range col.st {
-				for _, e := range errs {
-					n++
-					if e == nil {
-						kinds["ok"]++
-					} else {
-						kinds[c06Why(e)]++
-					}
-				}
-			}
-			switch {
-			case kinds["chk"] > 0 && kinds["chk"] == n:
-				info.bodyKind = "chk"
-			case kinds["dmarc"] > 0 && kinds["dmarc"] == n:
-				info.bodyKind = "dmarc"
-			case kinds["mod"] > 0 && kinds["mod"] == n:
-				info.bodyKind = "mod"
-			case kinds["chk"] > 0 || kinds["dmarc"] > 0 || kinds["mod"] > 0:
-				info.bodyKind = "other:mixed-statuses"
-			default:
-				info.bodyKind = "ok"
-				for k := range kinds {
-					if strings.HasPrefix(k, "other") {
-						info.bodyKind = k
-					}
-				}
-			}
-			for k, r := range c.rcpts {
-				if info.rcptRef[k] {
-					continue
-				}
-				// a recipient without a status is served: the LMTP server fills in success for
-				// every recipient the handler did not report on
-				served := true
-				for _, e := range col.st[r.id] {
-					if e != nil {
-						served = false
-					}
-				}
-				info.status[r.id] = served
-			}
-		}
-		if c.mode == "smtp" && anyAcc {
-			for k, r := range c.rcpts {
-				if !info.rcptRef[k] {
-					info.status[r.id] = info.bodyKind == "ok"
-				}
-			}
+	tx.accepted = func(r c06Rcpt) {
+		if hasNest(r.blk) {
+			handed = append(handed, c06Rcpt{r.id, 0})
 		}
 	}
-	info.finalQ = meta.Quarantine
-	info.decoyHits = len(op.decoyRec.calls)
-	info.obs = c06Obs(info)
-	info.outcome = c06CheckOutcome(info)
+	for tx.step() {
+	}
+	info := tx.info
 	if ip != nil {
 		c06Inner(info, ip, handed)
 	}
@@ -1159,7 +1413,7 @@ func c06Inner(out *c06Info, ip *c06Pipe, handed []c06Rcpt) {
 	for _, h := range handed {
 		ic.rcpts = append(ic.rcpts, c06Rcpt{h.id, iroute[h.id]})
 	}
-	in := &c06Info{c: ic, rec: ip.rec, tgts: ip.tgts, status: map[int]bool{}}
+	in := &c06Info{c: ic, rec: ip.rec, tgts: ip.tgts, status: map[int]bool{}, txID: "verif"}
 	in.rcptRef = make([]bool, len(handed))
 	in.rcptWhy = make([]string, len(handed))
 	ran := !out.startRef && (out.bodyKind == "ok" || out.bodyKind == "tgt")
@@ -1227,7 +1481,7 @@ func c06Obs(in *c06Info) string {
 	// hand-offs: deliveries whose target took the body (SMTP: only if the whole message was accepted)
 	var del []string
 	for _, t := range in.tgts {
-		for _, d := range t.dlvs {
+		for _, d := range in.dl(t) {
 			if !d.bodySeen {
 				continue
 			}
@@ -1406,7 +1660,7 @@ func c06Monitor(out *vh.Out, op string, in *c06Info) {
 	dataRan := !in.startRef && in.bodyKind != "none"
 	delivered := false // some target took the body
 	for _, t := range in.tgts {
-		for _, d := range t.dlvs {
+		for _, d := range in.dl(t) {
 			if d.bodySeen {
 				delivered = true
 			}
@@ -1457,7 +1711,7 @@ func c06Monitor(out *vh.Out, op string, in *c06Info) {
 				}
 				if in.rcptRef[k] && !acceptedSomewhere[r.id] {
 					for _, t := range in.tgts {
-						for _, d := range t.dlvs {
+						for _, d := range in.dl(t) {
 							if c06Has(d.rcpts, r.id) {
 								out.Violation("C06/refused-recipient-reached-target", op, fmt.Sprintf("recipient %d was refused and handed to target %d", r.id, t.id))
 							}
@@ -1487,7 +1741,7 @@ func c06Monitor(out *vh.Out, op string, in *c06Info) {
 					sigF, sigR = "C06/nested-quarantine-not-flagged", "C06/nested-quarantined-message-relayed"
 				}
 				for _, t := range in.tgts {
-					for _, d := range t.dlvs {
+					for _, d := range in.dl(t) {
 						if d.bodySeen && !d.bodyQ {
 							out.Violation(sigF, op, fmt.Sprintf("%s, target %d%s saw the message without the flag", why, t.id, where))
 						}
@@ -1664,6 +1918,17 @@ func c06Monitor(out *vh.Out, op string, in *c06Info) {
 			}
 		}
 	}
+	// ---- the state objects of a message see that message only, while its own commands run
+	for i, f := range in.rec.foreign {
+		if i < 3 {
+			out.Violation("C06/cross-transaction-call", op, "a state object created for one message was asked while a command of another message ran: "+f)
+		}
+	}
+	for i, w := range in.rec.wrongArg {
+		if i < 3 {
+			out.Violation("C06/foreign-message-shown", op, "a check was not shown the stage of ITS message: "+w)
+		}
+	}
 	if in.rec.lateCall > 0 {
 		out.Stat("note.call-on-closed-state")
 	}
@@ -1707,7 +1972,7 @@ func c06Stats(out *vh.Out, in *c06Info) {
 			}
 			refusing := false
 			for _, t := range ii.tgts {
-				for _, d := range t.dlvs {
+				for _, d := range ii.dl(t) {
 					if d.bodySeen && t.refuseQ {
 						refusing = true
 					}
@@ -1770,6 +2035,18 @@ func c06Stats(out *vh.Out, in *c06Info) {
 		}
 	}
 	out.Stat("mode." + c.mode)
+	out.Stat("sender-form." + string(c.formOr()))
+	if c.formOr() == 'z' && !in.startRef {
+		lazy := false
+		for _, call := range in.rec.calls {
+			if call.cmd >= 1 && (call.stage == "c" || call.stage == "s") {
+				lazy = true
+			}
+		}
+		if lazy {
+			out.Stat("sender-form.z.state-created-after-mail")
+		}
+	}
 	out.Stat("dmarc." + c.dmarc)
 	out.Stat(fmt.Sprintf("checks.%d", len(c.scripts)))
 	out.Stat(fmt.Sprintf("blocks.%d", len(c.blocks)))
@@ -1853,7 +2130,7 @@ func c06Stats(out *vh.Out, in *c06Info) {
 		out.Stat("completion-order.permuted")
 	}
 	for _, t := range in.tgts {
-		for _, d := range t.dlvs {
+		for _, d := range in.dl(t) {
 			if d.committed && !d.bodySeen {
 				out.Stat("note.commit-without-body")
 			}
@@ -1966,6 +2243,465 @@ func c06CaseRun(out *vh.Out, c *c06Case, companions bool) {
 	}
 }
 
+// ---------------------------------------------------------------- several transactions on one parser-built pipeline
+
+// c06Src: one source block of a multi op (the last one of the list is default_source, source k
+// before it is `source s<k>.example bücher<k>.example`).
+type c06Src struct {
+	checks []int
+	blocks []c06Block
+}
+
+// c06Multi: ONE pipeline object built by the real configuration parser from generated
+// configuration text (every check of a scope in its own `check { }` directive, so the check lists
+// have the lengths and capacities repeated append gives them), and several transactions on it
+// whose commands are interleaved as the schedule says. Every transaction is a c06Case of its own
+// (mode, sender, recipients, verdicts and delays for THIS message, pre-set flag); dmarc / global /
+// source / blocks / tgts of it are filled in from the pipeline and the source block its sender selects.
+type c06Multi struct {
+	dmarc  string
+	global []int
+	tgts   []string
+	srcs   []c06Src
+	sched  []int
+	txs    []*c06Case
+}
+
+func c06SrcDomain(m *c06Multi, k int) (dom, idn string) {
+	if k == len(m.srcs)-1 {
+		return "", ""
+	}
+	return fmt.Sprintf("s%d.example", k), fmt.Sprintf("bücher%d.example", k)
+}
+
+// fill: the per-transaction view of the pipeline
+func (m *c06Multi) fill() {
+	for _, c := range m.txs {
+		c.dmarc, c.global, c.tgts = m.dmarc, m.global, m.tgts
+		c.source, c.blocks = m.srcs[c.src].checks, m.srcs[c.src].blocks
+	}
+}
+
+func (m *c06Multi) op() string {
+	var ss []string
+	for _, s := range m.srcs {
+		var bl []string
+		for _, b := range s.blocks {
+			bl = append(bl, c06Ids(b.checks)+"/"+c06Ids(b.targets))
+		}
+		ss = append(ss, c06Ids(s.checks)+"~"+strings.Join(bl, ";"))
+	}
+	var sc strings.Builder
+	for _, i := range m.sched {
+		sc.WriteByte(byte('0' + i))
+	}
+	f := []string{"C06", "multi", m.dmarc, c06Ids(m.global), strings.Join(m.tgts, ","), strings.Join(ss, "_"), sc.String()}
+	for _, c := range m.txs {
+		tf := c.fields()
+		who := strconv.Itoa(c.src) + string(c.formOr())
+		if c.q0 {
+			who += "Q"
+		}
+		f = append(f, "//", c.mode, who, tf[6], tf[7], tf[8])
+	}
+	return strings.Join(f, " ")
+}
+
+func c06ParseMulti(op string) (m *c06Multi, err error) {
+	defer func() {
+		if r := recover(); r != nil {
+			err = fmt.Errorf("bad op: %v", r)
+		}
+	}()
+	t := strings.Fields(op)
+	if len(t) < 13 || t[0] != "C06" || t[1] != "multi" || (len(t)-7)%6 != 0 {
+		return nil, errors.New("not a C06 multi op")
+	}
+	m = &c06Multi{dmarc: t[2], global: c06ParseIds(t[3]), tgts: strings.Split(t[4], ",")}
+	for _, s := range strings.Split(t[5], "_") {
+		p := strings.Split(s, "~")
+		if len(p) != 2 {
+			return nil, errors.New("bad source block " + s)
+		}
+		src := c06Src{checks: c06ParseIds(p[0])}
+		for _, b := range strings.Split(p[1], ";") {
+			q := strings.Split(b, "/")
+			src.blocks = append(src.blocks, c06Block{c06ParseIds(q[0]), c06ParseIds(q[1])})
+		}
+		m.srcs = append(m.srcs, src)
+	}
+	for _, ch := range t[6] {
+		if ch < '0' || ch > '9' {
+			return nil, errors.New("bad schedule")
+		}
+		m.sched = append(m.sched, int(ch-'0'))
+	}
+	for i := 7; i < len(t); i += 6 {
+		if t[i] != "//" {
+			return nil, errors.New("bad transaction separator")
+		}
+		who := t[i+2]
+		if len(who) < 2 || len(who) > 3 || (len(who) == 3 && who[2] != 'Q') || strings.IndexByte(c06Forms, who[1]) < 0 {
+			return nil, errors.New("bad sender " + who)
+		}
+		src := int(who[0] - '0')
+		if src < 0 || src >= len(m.srcs) {
+			return nil, errors.New("bad source index " + who)
+		}
+		if who[1] == 'z' && src != len(m.srcs)-1 {
+			return nil, errors.New("the null reverse-path is handled by the default source: " + who)
+		}
+		bl := strings.Split(t[5], "_")[src]
+		c, err := c06ParseFields([]string{t[i+1], m.dmarc, t[3], "-", strings.SplitN(bl, "~", 2)[1], t[4], t[i+3], t[i+4], t[i+5]})
+		if err != nil {
+			return nil, err
+		}
+		c.src, c.form, c.q0 = src, who[1], len(who) == 3
+		if len(m.txs) > 0 && len(c.scripts) != len(m.txs[0].scripts) {
+			return nil, errors.New("transactions with different numbers of checks")
+		}
+		m.txs = append(m.txs, c)
+	}
+	for _, i := range m.sched {
+		if i >= len(m.txs) {
+			return nil, errors.New("schedule names a transaction that does not exist")
+		}
+	}
+	m.fill()
+	return m, nil
+}
+
+// c06Cur: the pipeline under construction - the module factories below hand out its objects.
+var c06Cur *c06Pipe
+
+func init() {
+	num := func(args []string, i int) (int, error) {
+		if i >= len(args) {
+			return 0, errors.New("verif_c06: missing argument")
+		}
+		return strconv.Atoi(args[i])
+	}
+	module.Register("check.verif_c06", func(_, _ string, _, args []string) (module.Module, error) {
+		id, err := num(args, 0)
+		if err != nil || c06Cur == nil || id >= len(c06Cur.checks) {
+			return nil, errors.New("verif_c06: no such check")
+		}
+		return c06Cur.checks[id].(*c06Check), nil
+	})
+	module.Register("check.verif_c06_auth", func(_, _ string, _, _ []string) (module.Module, error) {
+		return c06AuthCheck{}, nil
+	})
+	module.Register("target.verif_c06_tgt", func(_, _ string, _, args []string) (module.Module, error) {
+		id, err := num(args, 0)
+		if err != nil || c06Cur == nil || id >= len(c06Cur.tgts) {
+			return nil, errors.New("verif_c06_tgt: no such target")
+		}
+		return c06Cur.tgts[id], nil
+	})
+	module.Register("modify.verif_c06_mod", func(_, _ string, _, args []string) (module.Module, error) {
+		blk, err := num(args, 1)
+		if err != nil || c06Cur == nil {
+			return nil, errors.New("verif_c06_mod: bad arguments")
+		}
+		return &c06Mod{scope: args[0], blk: blk, rec: c06Cur.modRec}, nil
+	})
+}
+
+// c06ConfigText: the configuration of the pipeline of a multi op.
+func c06ConfigText(m *c06Multi) string {
+	var b strings.Builder
+	checks := func(ind string, ids []int) {
+		for _, id := range ids {
+			fmt.Fprintf(&b, "%scheck {\n%s    verif_c06 %d\n%s}\n", ind, ind, id, ind)
+		}
+	}
+	checks("", m.global)
+	if m.dmarc != "off" {
+		b.WriteString("check {\n    verif_c06_auth\n}\n")
+		b.WriteString("dmarc yes\n")
+	} else {
+		b.WriteString("dmarc no\n")
+	}
+	b.WriteString("modify {\n    verif_c06_mod g 0\n}\n")
+	for k, s := range m.srcs {
+		if dom, idn := c06SrcDomain(m, k); dom != "" {
+			fmt.Fprintf(&b, "source %s %s {\n", dom, idn)
+		} else {
+			b.WriteString("default_source {\n")
+		}
+		checks("    ", s.checks)
+		fmt.Fprintf(&b, "    modify {\n        verif_c06_mod s %d\n    }\n", k)
+		for i, blk := range s.blocks {
+			fmt.Fprintf(&b, "    destination b%d.example {\n", i)
+			checks("        ", blk.checks)
+			fmt.Fprintf(&b, "        modify {\n            verif_c06_mod b %d\n        }\n", i)
+			for _, t := range blk.targets {
+				fmt.Fprintf(&b, "        deliver_to verif_c06_tgt %d\n", t)
+			}
+			b.WriteString("    }\n")
+		}
+		b.WriteString("    default_destination {\n        reject 550 5.1.1 \"no such block\"\n    }\n}\n")
+	}
+	return b.String()
+}
+
+// c06BuildParsed: the pipeline of a multi op, through cfgparser.Read and New (parseMsgPipelineRootCfg).
+func c06BuildParsed(m *c06Multi, ctxs []*c06TxCtx) (*c06Pipe, error) {
+	sh := &c06Shared{txs: map[string]*c06TxCtx{}}
+	for _, ctx := range ctxs {
+		sh.txs[ctx.id] = ctx
+	}
+	pp := &c06Pipe{sh: sh, modRec: &c06ModRec{}}
+	for i := range m.txs[0].scripts {
+		pp.checks = append(pp.checks, &c06Check{id: i, sh: sh})
+	}
+	for i, k := range m.tgts {
+		pp.tgts = append(pp.tgts, &c06Target{id: i, partial: k[0] == 'p', refuseQ: k[1] == 'r'})
+	}
+	nodes, err := parser.Read(strings.NewReader(c06ConfigText(m)), "verif_c06.conf")
+	if err != nil {
+		return nil, err
+	}
+	c06Cur = pp
+	defer func() { c06Cur = nil }()
+	p, err := New(map[string]interface{}{}, nodes)
+	if err != nil {
+		return nil, err
+	}
+	zones := map[string]mockdns.Zone{}
+	switch m.dmarc {
+	case "pass":
+		zones["_dmarc.example.org."] = mockdns.Zone{TXT: []string{"v=DMARC1; p=none"}}
+	case "quar":
+		zones["_dmarc.example.org."] = mockdns.Zone{TXT: []string{"v=DMARC1; p=quarantine"}}
+	case "rej":
+		zones["_dmarc.example.org."] = mockdns.Zone{TXT: []string{"v=DMARC1; p=reject"}}
+	}
+	p.Hostname = "mx.verif.example"
+	p.Resolver = &mockdns.Resolver{Zones: zones}
+	p.Log = log.Logger{Out: log.NopOutput{}}
+	pp.p = p
+	return pp, nil
+}
+
+type c06MultiRes struct {
+	infos []*c06Info
+	pp    *c06Pipe
+	obs   string
+}
+
+// c06RunMulti: all transactions of the op on one pipeline object, commands in schedule order.
+func c06RunMulti(m *c06Multi) (*c06MultiRes, error) {
+	var ctxs []*c06TxCtx
+	for i, c := range m.txs {
+		var addrs []string
+		for _, r := range c.rcpts {
+			addrs = append(addrs, c06Addr(r.id, r.blk))
+		}
+		dom, idn := c06SrcDomain(m, c.src)
+		ctxs = append(ctxs, c06NewCtx(fmt.Sprintf("tx%d", i), c, c06Sender(c.formOr(), dom, idn), addrs))
+	}
+	pp, err := c06BuildParsed(m, ctxs)
+	if err != nil {
+		return nil, err
+	}
+	var txs []*c06Tx
+	for i, c := range m.txs {
+		txs = append(txs, c06NewTx(c, pp, ctxs[i]))
+	}
+	for _, i := range m.sched {
+		txs[i].step()
+	}
+	res := &c06MultiRes{pp: pp}
+	var obs []string
+	for _, tx := range txs {
+		if tx.phase != 2 {
+			tx.giveUp()
+		}
+		res.infos = append(res.infos, tx.info)
+		obs = append(obs, tx.info.obs)
+	}
+	pp.sh.setCur(nil)
+	res.obs = strings.Join(obs, " || ")
+	return res, nil
+}
+
+func c06CloneMulti(m *c06Multi) *c06Multi {
+	n := *m
+	n.sched = append([]int(nil), m.sched...)
+	n.txs = nil
+	for _, c := range m.txs {
+		n.txs = append(n.txs, c06Clone(c))
+	}
+	n.fill()
+	return &n
+}
+
+func c06MultiOne(t *testing.T, out *vh.Out, m *c06Multi) *c06MultiRes {
+	op := m.op()
+	res, err := c06RunMulti(m)
+	if err != nil {
+		t.Fatalf("the configuration of a multi op was not accepted: %v\n%s\n%s", err, op, c06ConfigText(m))
+	}
+	out.Corr(op, res.obs)
+	for _, in := range res.infos {
+		if in.open {
+			out.Stat("multi.tx.left-open")
+			continue
+		}
+		c06Monitor(out, op, in)
+		c06Stats(out, in)
+	}
+	if sh := res.pp.sh; sh.stray != nil && len(sh.stray.rec.calls)+len(sh.stray.rec.inst) > 0 {
+		out.Violation("C06/unexpected-error", op, "a check state was created for a message that was never started on the pipeline")
+	}
+	c06MultiStats(out, m, res)
+	return res
+}
+
+// c06MultiCase: the op, then the same transactions one after the other and in another
+// interleaving: what each of them shows must not depend on the others.
+func c06MultiCase(t *testing.T, out *vh.Out, m *c06Multi, companions bool) {
+	base := c06MultiOne(t, out, m)
+	if !companions {
+		return
+	}
+	op := m.op()
+	seen := map[string]bool{op: true}
+	try := func(v *c06Multi, what string) {
+		if seen[v.op()] {
+			return
+		}
+		seen[v.op()] = true
+		vr := c06MultiOne(t, out, v)
+		for i := range base.infos {
+			if base.infos[i].open || vr.infos[i].open {
+				continue
+			}
+			if base.infos[i].obs != vr.infos[i].obs {
+				out.Violation("C06/schedule-dependent", op, fmt.Sprintf("transaction %d shows something else when the commands of the transactions on the pipeline come %s (%s): %s || %s",
+					i, what, v.op(), vr.infos[i].obs, base.infos[i].obs))
+			}
+		}
+	}
+	// one after the other
+	seq := c06CloneMulti(m)
+	seq.sched = nil
+	for i := range m.txs {
+		for _, j := range m.sched {
+			if j == i {
+				seq.sched = append(seq.sched, i)
+			}
+		}
+	}
+	try(seq, "one transaction after the other")
+	// another interleaving (derived from the op line, so a replay repeats it)
+	h := uint64(1469598103934665603)
+	for i := 0; i < len(op); i++ {
+		h = (h ^ uint64(op[i])) * 1099511628211
+	}
+	r := vh.NewRng(h)
+	oth := c06CloneMulti(m)
+	oth.sched = c06Interleave(r, m)
+	try(oth, "in another order")
+}
+
+// c06Interleave: a uniformly random merge of the command sequences of the transactions.
+func c06Interleave(r *vh.Rng, m *c06Multi) []int {
+	left := make([]int, len(m.txs))
+	total := 0
+	for i, c := range m.txs {
+		left[i] = len(c.rcpts) + 2
+		total += left[i]
+	}
+	var sched []int
+	for total > 0 {
+		x := r.Intn(total)
+		for i := range left {
+			if x < left[i] {
+				sched = append(sched, i)
+				left[i]--
+				total--
+				break
+			}
+			x -= left[i]
+		}
+	}
+	return sched
+}
+
+func c06MultiStats(out *vh.Out, m *c06Multi, res *c06MultiRes) {
+	out.Stat("multi")
+	out.Stat(fmt.Sprintf("multi.txs.%d", len(m.txs)))
+	out.Stat(fmt.Sprintf("multi.sources.%d", len(m.srcs)))
+	p := res.pp.p
+	spare := func(l []module.Check) string {
+		if cap(l) > len(l) {
+			return "spare-capacity"
+		}
+		return "full"
+	}
+	out.Stat(fmt.Sprintf("multi.global-check-list.len-%d.%s", len(p.globalChecks), spare(p.globalChecks)))
+	srcSpare, blkSpare := false, false
+	srcs := []sourceBlock{p.defaultSource}
+	for _, sb := range p.perSource {
+		srcs = append(srcs, sb)
+	}
+	for _, sb := range srcs {
+		if cap(sb.checks) > len(sb.checks) {
+			srcSpare = true
+		}
+		for _, rb := range sb.perRcpt {
+			if cap(rb.checks) > len(rb.checks) {
+				blkSpare = true
+			}
+		}
+	}
+	if srcSpare {
+		out.Stat("multi.source-check-list.spare-capacity")
+	}
+	if blkSpare {
+		out.Stat("multi.destination-check-list.spare-capacity")
+	}
+	// overlap: a command of another transaction between MAIL and DATA of one
+	first, last := map[int]int{}, map[int]int{}
+	for k, i := range m.sched {
+		if _, ok := first[i]; !ok {
+			first[i] = k
+		}
+		last[i] = k
+	}
+	overlap := false
+	for i := range m.txs {
+		for k := first[i]; k <= last[i]; k++ {
+			if m.sched[k] != i {
+				overlap = true
+			}
+		}
+	}
+	if overlap {
+		out.Stat("multi.overlapping")
+	} else if len(m.txs) > 1 {
+		out.Stat("multi.sequential")
+	}
+	srcSeen := map[int]bool{}
+	for _, c := range m.txs {
+		srcSeen[c.src] = true
+	}
+	if len(srcSeen) > 1 {
+		out.Stat("multi.transactions-of-different-source-blocks")
+	}
+	allData := len(m.txs) > 1
+	for _, in := range res.infos {
+		if in.open || in.startRef || in.bodyKind == "none" {
+			allData = false
+		}
+	}
+	if allData && overlap {
+		out.Stat("multi.overlapping.all-reached-data")
+	}
+}
+
 // ---------------------------------------------------------------- generator
 
 // c06Opt: what a generated pipeline may contain.
@@ -1987,7 +2723,174 @@ func c06Gen(r *vh.Rng, big bool) *c06Case {
 			c.mf = m
 		}
 	}
+	c.form = c06GenForm(r)
 	return c
+}
+
+// c06GenForm: how the reverse-path is written; the null reverse-path (bounces) is common.
+func c06GenForm(r *vh.Rng) byte {
+	switch x := r.Intn(100); {
+	case x < 18:
+		return 'z'
+	case x < 23:
+		return 'i'
+	case x < 28:
+		return 'q'
+	case x < 33:
+		return 'u'
+	}
+	return 'n'
+}
+
+// c06GenMulti: a parser-built pipeline and 1-3 transactions on it.
+func c06GenMulti(r *vh.Rng, big bool) *c06Multi {
+	m := &c06Multi{}
+	switch x := r.Intn(10); {
+	case x < 6:
+		m.dmarc = "off"
+	case x < 7:
+		m.dmarc = "pass"
+	case x < 9:
+		m.dmarc = "quar"
+	default:
+		m.dmarc = "rej"
+	}
+	nC := 4 + r.Intn(4)
+	if big && r.Chance(25) {
+		nC = 8 + r.Intn(2)
+	}
+	nT := 1 + r.Intn(3)
+	for i := 0; i < nT; i++ {
+		k := r.Pick("a", "p")
+		if r.Chance(25) {
+			k += "r"
+		} else {
+			k += "n"
+		}
+		m.tgts = append(m.tgts, k)
+	}
+	// n different checks for a scope: 1-5 `check` directives (a list of 3, 5, 6 or 7 entries built by
+	// repeated append has spare capacity)
+	// the source and destination blocks mostly have checks of their own (not the global ones)
+	scope := func(sizes ...int) []int {
+		n := sizes[r.Intn(len(sizes))]
+		if n > nC {
+			n = nC
+		}
+		var l []int
+		for tries := 0; len(l) < n; tries++ {
+			x := r.Intn(nC)
+			if c06Has(l, x) || (c06Has(m.global, x) && len(m.global) < nC && tries < 50 && !r.Chance(15)) {
+				continue
+			}
+			l = append(l, x)
+		}
+		return l
+	}
+	if m.dmarc == "off" {
+		m.global = scope(0, 1, 2, 3, 3, 3, 3, 5)
+	} else {
+		// the check that feeds the DMARC verifier is one more directive
+		m.global = scope(0, 1, 2, 2, 2, 2, 4)
+	}
+	nS := 1 + r.Intn(3)
+	for k := 0; k < nS; k++ {
+		src := c06Src{checks: scope(0, 1, 1, 2, 3, 3, 3)}
+		nB := []int{1, 2, 2, 3}[r.Intn(4)]
+		for b := 0; b < nB; b++ {
+			blk := c06Block{checks: scope(0, 1, 1, 1, 2, 3)}
+			n := 1
+			if r.Chance(30) {
+				n = 2
+			}
+			for len(blk.targets) < n && len(blk.targets) < nT {
+				if t := r.Intn(nT); !c06Has(blk.targets, t) {
+					blk.targets = append(blk.targets, t)
+				}
+			}
+			src.blocks = append(src.blocks, blk)
+		}
+		m.srcs = append(m.srcs, src)
+	}
+	nTx := []int{1, 2, 2, 2, 3, 3}[r.Intn(6)]
+	if big && r.Chance(15) {
+		nTx = 4
+	}
+	pRej := []int{0, 0, 3, 8}[r.Intn(4)]
+	pQ := []int{0, 5, 15}[r.Intn(3)]
+	pIgn := []int{0, 10}[r.Intn(2)]
+	gen := func() c06V {
+		x := r.Intn(100)
+		switch {
+		case x < pRej:
+			return c06V{'1', 'r'}
+		case x < pRej+pQ:
+			return c06V{'1', 'q'}
+		case x < pRej+pQ+pIgn:
+			return c06V{'1', 'i'}
+		}
+		return c06V{'0', r.Pick("i", "q", "r")[0]}
+	}
+	for i := 0; i < nTx; i++ {
+		c := &c06Case{mode: r.Pick("smtp", "lmtp"), form: c06GenForm(r), q0: r.Chance(8)}
+		c.src = r.Intn(nS)
+		if i > 0 && nS > 1 && r.Chance(50) {
+			// another source block than the transaction before
+			for c.src == m.txs[i-1].src {
+				c.src = r.Intn(nS)
+			}
+		}
+		if c.form == 'z' {
+			c.src = nS - 1
+		}
+		nB := len(m.srcs[c.src].blocks)
+		nR := []int{1, 2, 2, 3, 3}[r.Intn(5)]
+		blkOf := map[int]int{}
+		for id := 1; id <= 3; id++ {
+			// mostly: the recipients of a message go through different destination blocks
+			blkOf[id] = (id - 1) % nB
+			if r.Chance(35) {
+				blkOf[id] = r.Intn(nB)
+			}
+		}
+		used := map[int]bool{}
+		for len(c.rcpts) < nR {
+			id := 1 + r.Intn(3)
+			if used[id] && !r.Chance(12) {
+				continue
+			}
+			used[id] = true
+			c.rcpts = append(c.rcpts, c06Rcpt{id, blkOf[id]})
+		}
+		for ci := 0; ci < nC; ci++ {
+			sc := c06Script{conn: gen(), sender: gen(), body: gen(), rcpt: map[int]c06V{}}
+			for id := 1; id <= 3; id++ {
+				if v := gen(); v.raw != '0' {
+					sc.rcpt[id] = v
+				}
+			}
+			c.scripts = append(c.scripts, sc)
+			var d [4]int
+			if r.Chance(50) {
+				for j := range d {
+					d[j] = r.Intn(4)
+				}
+			}
+			c.delays = append(c.delays, d)
+		}
+		// a check of the message's own scope (source block, block of its first recipient) has something
+		// to say about the body
+		if r.Chance(45) {
+			own := append(append([]int(nil), m.srcs[c.src].checks...), m.srcs[c.src].blocks[c.rcpts[0].blk].checks...)
+			if len(own) > 0 {
+				c.scripts[own[r.Intn(len(own))]].body = c06V{'1', r.Pick("r", "q")[0]}
+			}
+		}
+		m.txs = append(m.txs, c)
+	}
+	m.fill()
+	m.sched = c06Interleave(r, m)
+	return m
 }
 
 // c06GenMF: failing modifiers.  Favoured: one recipient of a destination block accepted, a LATER
@@ -2288,6 +3191,14 @@ func TestVerifC06Pipeline(t *testing.T) {
 	defer out.Close()
 	if ops := vh.Replay(); ops != nil {
 		for _, op := range ops {
+			if strings.HasPrefix(op, "C06 multi ") {
+				m, err := c06ParseMulti(op)
+				if err != nil {
+					t.Fatalf("%v: %s", err, op)
+				}
+				c06MultiCase(t, out, m, true)
+				continue
+			}
 			if !strings.HasPrefix(op, "C06 run ") && !strings.HasPrefix(op, "C06 nest ") {
 				continue
 			}
@@ -2303,6 +3214,14 @@ func TestVerifC06Pipeline(t *testing.T) {
 	n := vh.N(400)
 	for i := 0; i < n; i++ {
 		var c *c06Case
+		if r.Chance(28) {
+			m := c06GenMulti(r, vh.Thorough())
+			if m2, err := c06ParseMulti(m.op()); err != nil || m2.op() != m.op() {
+				t.Fatalf("op line does not round-trip: %s (%v)", m.op(), err)
+			}
+			c06MultiCase(t, out, m, true)
+			continue
+		}
 		if r.Chance(15) {
 			c = c06GenNest(r, vh.Thorough())
 		} else {
